@@ -2,7 +2,7 @@ ENC = 'mla/src/layers/encrypt.rs'
 MLAR = 'mlar/src/main.rs'
 MUTANTS = [
     {'id': 'c04-swap-arms', 'props': ['C04'], 'expect': 'fire', 'keys': ['R04.1'],
-     'edits': [(ENC, "            FailSafeReaderDecryptionMode::OnlyAuthenticatedData => {\n                // catch", "            FailSafeReaderDecryptionMode::DataEvenUnauthenticated => {\n                // catch"),
+     'edits': [(ENC, "            FailSafeReaderDecryptionMode::OnlyAuthenticatedData => {\n                if self.authentication_failed {", "            FailSafeReaderDecryptionMode::DataEvenUnauthenticated => {\n                if self.authentication_failed {"),
                (ENC, "            FailSafeReaderDecryptionMode::DataEvenUnauthenticated => {\n                Ok(self.internal.read_internal_unauthenticated(buf)?)", "            FailSafeReaderDecryptionMode::OnlyAuthenticatedData => {\n                Ok(self.internal.read_internal_unauthenticated(buf)?)")]},
     {'id': 'c04-default-unauth', 'props': ['C04'], 'expect': 'fire', 'keys': ['R04.2'],
      'edits': [(ENC, "    #[default]\n    OnlyAuthenticatedData,\n    /// Returns all data, even if not authenticated\n    DataEvenUnauthenticated,", "    OnlyAuthenticatedData,\n    /// Returns all data, even if not authenticated\n    #[default]\n    DataEvenUnauthenticated,")]},
@@ -14,7 +14,11 @@ MUTANTS = [
     {'id': 'c04-auth-setter-wrong', 'props': ['C04'], 'expect': 'fire', 'keys': ['R04.2'],
      'edits': [(ENC, "        self.encrypt.failsafe_mode = FailSafeReaderDecryptionMode::OnlyAuthenticatedData;", "        self.encrypt.failsafe_mode = FailSafeReaderDecryptionMode::DataEvenUnauthenticated;")]},
     {'id': 'c04-wrongtag-then-unauth', 'props': ['C04'], 'expect': 'fire', 'keys': ['R04.1'],
-     'edits': [(ENC, "                    Err(Error::AuthenticatedDecryptionWrongTag) => Ok(0),", "                    Err(Error::AuthenticatedDecryptionWrongTag) => Ok(self.internal.read_internal_unauthenticated(buf)?),")]},
+     'edits': [(ENC, "                        self.authentication_failed = true;\n                        Ok(0)", "                        self.authentication_failed = true;\n                        Ok(self.internal.read_internal_unauthenticated(buf)?)")]},
+    {'id': 'c04-revert-latch', 'props': ['C04'], 'expect': 'fire', 'keys': ['R04.4'],
+     'edits': [(ENC, "                if self.authentication_failed {\n                    // A previous chunk failed: do not resume with the chunks following it\n                    return Ok(0);\n                }\n", "")]},
+    {'id': 'c04-latch-never-set', 'props': ['C04'], 'expect': 'fire', 'keys': ['R04.4'],
+     'edits': [(ENC, "                        self.authentication_failed = true;\n                        Ok(0)", "                        Ok(0)")]},
     {'id': 'c04-benign-iflet', 'props': ['C04'], 'expect': 'silent',
      'edits': [(ENC, "        match self.decryption_mode {\n            FailSafeReaderDecryptionMode::OnlyAuthenticatedData => {", "        match self.decryption_mode {\n            FailSafeReaderDecryptionMode::OnlyAuthenticatedData => {\n                let _unused = buf.len();")]},
 ]
